@@ -149,7 +149,7 @@ def apply(obj, o, case, is_cube):
     if op == "pow":
         return obj ** o["exp"]
     if op == "to":
-        return obj.to(o["unit"])
+        return obj.to(u.Unit(o["unit"]) if case["wseed"] % 2 else o["unit"])       # a Unit object or its string
     return PY[op](obj, operand_value(o["operand"], case))
 
 
